@@ -139,6 +139,7 @@ def showNames (l : List Svc) : String := ",".intercalate (l.map (·.name))
 def showIdx (d : List (String × List String)) : String := "|".intercalate (d.map (fun p => p.1 ++ "=" ++ ",".intercalate p.2))
 def showAns (d : List (Nat × List Nat)) : String :=
   "{" ++ ",".intercalate (d.map (fun p => toString p.1 ++ ":[" ++ ",".intercalate ((p.2.toArray.qsort (· < ·)).toList.map toString) ++ "]")) ++ "}"
+def showAnsS (d : List (Nat × List Nat)) : String := showAns (d.toArray.qsort (fun a b => a.1 < b.1)).toList
 '''
 
 
@@ -605,7 +606,79 @@ def area_sched(rng, z, n_cases):
     return "\n\n".join(defs), exprs, exp
 
 
-AREAS = {"Sched": area_sched, "History": area_history, "Registry": area_registry, "Cache": area_cache, "Dns": area_dns, "Queue": area_queue}
+def area_reply(rng, z, n_cases):
+    """`_QueryResponse`: real records in a real `DNSCache` (so that the real `_get_unique_ignoring_scope` answers), numbered 1..6 for
+    the generated code, whose look-up function is the table of the cached copies"""
+    import zeroconf._handlers.query_handler as qh
+
+    QR = "GenFn.Reply.QueryResponse"
+
+    def mk(i, ttl, created):
+        return ("t", "r%d.local." % i, 0x8001, ttl, created, (i,))
+
+    def lean_ans(d):
+        return "[" + ", ".join("(%d, [%s])" % (k, ", ".join(str(x) for x in sorted(v))) for k, v in d.items()) + "]"
+
+    def show_sorted(d, num):
+        return "{" + ",".join("%d:[%s]" % (k, ",".join(str(x) for x in v)) for k, v in sorted((num[r], sorted(num[a] for a in adds)) for r, adds in d.items())) + "}"
+
+    defs, exprs, exp = [], [], []
+    for ci in range(n_cases):
+        ttl = rng.choice([120, 4500])
+        created = 1000
+        quarter = ttl * 250
+        now = created + rng.choice([0, 999, 1000, 1001, quarter - 1, quarter, quarter + 1, 10 ** 7])
+        recs = {i: rec_py(mk(i, ttl, 1), z) for i in range(1, 7)}
+        num = {r: i for i, r in recs.items()}
+        cache = z._cache.DNSCache()
+        seen = {}
+        for i in rng.sample(range(1, 7), rng.randint(0, 5)):
+            c = created + rng.choice([0, 0, 1, -1])
+            d = mk(i, rng.choice([ttl, ttl, 10]), c)
+            cache.async_add_records([rec_py(d, z)])
+            seen[i] = d
+        is_probe = rng.random() < 0.3
+        qs = [(rng.choice(NAMES[:3]), rng.choice([1, 12, 16, 28, 33, 47, 255]), 1) for _ in range(rng.choice([0, 1, 1, 1, 2]))]
+        qr = qh._QueryResponse(cache, [q_py(q, z) for q in qs], is_probe, float(now))
+        L = ["def replyCase%d : String := Id.run do" % ci,
+             "  let seen : Nat → Option Rec := fun r => " + "".join("if r == %d then some %s else " % (i, rec_lean(d)) for i, d in sorted(seen.items())) + "none",
+             "  let mut q := %s.init () [%s] %s %d" % (QR, ", ".join(q_lean(q) for q in qs), "true" if is_probe else "false", now)]
+        raised = None
+        for _ in range(rng.randint(1, 5)):
+            k = rng.choice(["qu", "uc", "mc", "mc"])
+            ans = {}
+            for _j in range(rng.randint(0, 3)):
+                ans[rng.randrange(1, 7)] = set(rng.sample(range(1, 7), rng.randint(0, 2)))
+            real = {recs[a]: {recs[x] for x in v} for a, v in ans.items()}
+            try:
+                {"qu": qr.add_qu_question_response, "uc": qr.add_ucast_question_response, "mc": qr.add_mcast_question_response}[k](real)
+            except Exception as ex:  # noqa: BLE001
+                raised = "!" + exc_name(ex)
+            if k == "qu":
+                L += ["  match %s.add_qu_question_response q %s seen with" % (QR, lean_ans(ans)), "  | .ok p => do q := p", "  | .error e => return \"!\" ++ e.name"]
+            elif k == "uc":
+                L += ["  q := %s.add_ucast_question_response q %s" % (QR, lean_ans(ans))]
+            else:
+                L += ["  match %s.add_mcast_question_response q %s seen with" % (QR, lean_ans(ans)), "  | .ok p => do q := p", "  | .error e => return \"!\" ++ e.name"]
+            if raised:
+                break
+        if not raised:
+            try:
+                a = qr.answers()
+                raised = "U%s N%s A%s L%s" % (show_sorted(a.ucast, num), show_sorted(a.mcast_now, num), show_sorted(a.mcast_aggregate, num),
+                                              show_sorted(a.mcast_aggregate_last_second, num))
+            except Exception as ex:  # noqa: BLE001
+                raised = "!" + exc_name(ex)
+        exp.append(raised)
+        L += ["  match q.answers with",
+              "  | .ok a => return \"U\" ++ showAnsS a.ucast ++ \" N\" ++ showAnsS a.mcast_now ++ \" A\" ++ showAnsS a.mcast_aggregate ++ \" L\" ++ showAnsS a.mcast_aggregate_last_second",
+              "  | .error e => return \"!\" ++ e.name"]
+        defs.append("\n".join(L))
+        exprs.append("replyCase%d" % ci)
+    return "\n\n".join(defs), exprs, exp
+
+
+AREAS = {"Reply": area_reply, "Sched": area_sched, "History": area_history, "Registry": area_registry, "Cache": area_cache, "Dns": area_dns, "Queue": area_queue}
 
 
 QUEUE_PRELUDE = r'''
